@@ -88,10 +88,29 @@ HISTORY = {
     "C07-C2": ("C07", "read_file on a symbolic link whose target has another / no extension", "missed",
                "every fourth file of the read_file phase is a symlink into a blob store with another extension"),
     "C08-A2": ("C08", "PDF with empty user password AND empty owner password (decrypt('') returns OWNER_PASSWORD)", "missed",
-               "(pending: builder asked to add the owner-password dimension)"),
+               "the PDF universe gained the owner-password dimension (same as the empty user password / distinct)"),
     "C08-B2": ("C08", "OLE-wrapped OOXML with EncryptedPackage but no EncryptionInfo (IRM layout)", "caught", ""),
     "C16-A2": ("C16", "mbox part that is inline-with-name, named only via Content-Type, or attachment without name", "caught", ""),
     "C16-B2": ("C16", "single-part mbox message in a non-UTF-8 charset", "caught", ""),
+    "C01-A": ("C01", "valid .xls with one FAT bit flipped (xlrd assert with empty args) through the direct extractor", "caught", ""),
+    "C01-B": ("C01", "embedded JPEG with a zero-length segment before SOF (RTF \\pict, PPT/XLS records, EPUB images)", "missed",
+              "(pending: builder asked for image-header-aware container mutants and loop monitors on the sniffers)"),
+    "C01-C": ("C01", "CLI on an input that yields no results (empty archive, zero-byte mbox)", "caught", ""),
+    "C04-A2": ("C04", "path argument whose last component has no suffix (README, hidden file, trailing dot, archive member)", "caught", ""),
+    "C04-B2": ("C04", "PPTX picture whose pixel size cannot be measured (EMF / truncated header)", "caught", ""),
+    "C09-A2": ("C09", "7z archive consumed only partly (close / abandon / exception in the consumer)", "caught", ""),
+    "C09-B2": ("C09", "TAR hard-link member with a supported extension pointing at a hidden / unsupported earlier member", "missed",
+               "(pending: builder asked to let hard-link targets range over hidden / unsupported / oversize members)"),
+    "C10-A2": ("C10", ".tar.bz2 written with compresslevel 1..8 (header BZh1..BZh8)", "missed",
+               "(pending: builder asked to vary packer parameters that change container headers)"),
+    "C10-B2": ("C10", "7z with a zero-byte file listed before a file with data", "caught", ""),
+    "C11-A2": ("C11", "container with empty deflated entries (compress_size 2) near the total-ratio limit", "caught", ""),
+    "C11-B2": ("C11", "caller keeps using its stream after validate_zip_bytesio rejected it", "caught", ""),
+    "C12-A2": ("C12", "ODS empty row with a huge repeat count followed by a non-empty row", "caught", ""),
+    "C12-B2": ("C12", "read_file(max_file_size=0) on a non-empty file", "caught", ""),
+    "C14-A2": ("C14", "DOCX picture: JPEG whose DHT segment precedes its SOF segment", "missed",
+               "(pending: builder asked for legal header variants per image kind)"),
+    "C14-B2": ("C14", "PPTX slide relationship with an absolute picture target", "caught", ""),
 }
 
 
